@@ -63,8 +63,9 @@ CLAIMED = {
             "Liveness is decided as bounded progress under the deterministic scheduler's fair default "
             "continuation; unbounded starvation is out of reach of finite programs. A quarter of the workers use "
             "an NDEBUG harness build (assertion-enabled builds can turn a would-be hang into an abort). The "
-            "allocation-failure part (C08 fault points on olc_db) is decided by check C08, whose harness treats any "
-            "spin-wait reached single-threaded as a lock left held.",
+            "allocation-failure part runs the sequential harness's fault loops (every k-th allocation of every "
+            "insert / remove) on the two olc_db configurations; there any spin-wait reached single-threaded is a "
+            "lock left held.",
             "schedule enumeration with deadlock / lock-left-behind / bounded-progress verdicts", "5 C14"),
     "C05": ("qsbr", "exploration",
             "Programs of 2-4 real QSBR threads over abstract objects (catalogue of epoch-change races scripted with "
